@@ -455,6 +455,32 @@ def rt (T : List Desc) : Nat → Shape → JV → Res JV
   | 0, _, _ => .error .fuel
   | n + 1, s, v => rtStep T (rt T n) s v
 
+/-! ### the Loader route: what resolving a reference does to the Go value, and what the marshaller prints
+
+`Loader.resolve*Ref` fills `Value` next to `Ref` in a reference wrapper; `resolvePathItemRef` copies the target's
+fields into the path item and puts the reference text back. The JSON-valued model above does not see that state
+(a Go value is represented by the JSON it encodes to), so the two facts the Loader route rests on are stated on
+the Go state itself. -/
+
+/-- Go state of a reference wrapper `XRef{Ref, Value}`; `value` is the JSON `Value.MarshalYAML` writes
+    (`none` = nil pointer) -/
+structure Wrapper where
+  ref : String
+  value : Option JV
+
+/-- the one `MarshalYAML` template of the ten wrappers (flag `uniform` of their table rows): a non-empty `Ref`
+    is printed alone; otherwise the value; a wrapper with neither is null -/
+def Wrapper.marshal (w : Wrapper) : JV :=
+  if w.ref != "" then .obj [("$ref", .str w.ref)] else w.value.getD .null
+
+/-- `resolve*Ref`: `component.Value = resolved.Value`, `Ref` untouched -/
+def Wrapper.resolved (w : Wrapper) (target : JV) : Wrapper := { w with value := some target }
+
+/-- `resolvePathItemRef`: `*pathItem = resolved; pathItem.Ref = ref` — every field and the extensions come from
+    the target, the reference text is the path item's own -/
+def Rec.resolvedFrom (r target : Rec) : Rec :=
+  { fld := fun g => if g == "Ref" then r.fld "Ref" else target.fld g, ext := target.ext }
+
 /-! ### exclusion and side conditions of the deep stability theorem -/
 
 mutual
